@@ -53,7 +53,7 @@ def run(ctx):
                         "and the parser shape invariant ShapeOK (checked on every real tree, reported as inv)"]
     ctx.regen()
     ctx.extra_lean_dirs = ["C10", "C09", "C13", "C01"]
-    ctx.prove(["TsVerif.C02.Props", "TsVerif.C02.EditProps", "TsVerif.C02.BalanceProps", "TsVerif.C02.BalanceSumm", "TsVerif.C02.WidthProps", "TsVerif.C02.LexYields", "TsVerif.C02.ModelDriver"], "TsVerif/C02/Audit.lean")
+    ctx.prove(["TsVerif.C02.Props", "TsVerif.C02.EditProps", "TsVerif.C02.BalanceProps", "TsVerif.C02.BalanceSumm", "TsVerif.C02.WidthProps", "TsVerif.C02.LexYields", "TsVerif.C02.ModelDriver", "TsVerif.C02.Round11"], "TsVerif/C02/Audit.lean")
     driver = ctx.build_driver("tsv-c02")
     explorer = ctx.cargo_bin("c02")
     langdump = ctx.cunit("cunit_c02")
